@@ -322,6 +322,13 @@ def gen_dfxp(rng, n=None, nlangs=None, abs_units=None):
                             'tts:fontStyle="italic"', 'tts:textAlign="%s"' % rng.choice(["center", "left", "right", "start", "end"]),
                             'tts:fontWeight="bold"', 'tts:textDecoration="underline"'], rng.randint(1, 4))
         ref = ' style="s%d"' % (i - 1) if i > 0 and rng.random() < 0.3 else ""
+        if rng.random() < 0.3:
+            # referential geometry: a region (or an element) may take origin / extent / padding / displayAlign from a
+            # style of <styling>, so two documents can carry the very same <region> markup and still differ
+            attrs += rng.sample(['tts:origin="%s %s"' % (_len2(rng, units), _len2(rng, units)),
+                                 'tts:extent="%s %s"' % (_len2(rng, units), _len2(rng, units)),
+                                 'tts:padding="%s"' % " ".join(_len2(rng, units) for _ in range(rng.choice([1, 2, 3, 4]))),
+                                 'tts:displayAlign="%s"' % rng.choice(["before", "center", "after"])], rng.randint(1, 2))
         close = rng.choice(["/>", "/>", "/>", "/>", "/>", "/>", "></style>", "></style>", ">", "> </style>"])
         styles.append('<style xml:id="s%d"%s %s%s' % (i, ref, " ".join(attrs), close))
     if rng.random() < 0.15:
@@ -343,8 +350,10 @@ def gen_dfxp(rng, n=None, nlangs=None, abs_units=None):
         inner = ""
         if rng.random() < 0.2:
             inner = '<style tts:extent="%s %s"/>' % (_len2(rng, units), _len2(rng, units))
-        if nstyles and rng.random() < 0.2:
-            attrs.append('style="s0"')
+        if nstyles and rng.random() < 0.35:
+            if rng.random() < 0.4:
+                attrs = [a for a in attrs if not a.startswith(("tts:origin", "tts:extent"))]   # left to the referenced style
+            attrs.append('style="s%d"' % rng.randrange(nstyles))
         regions.append('<region xml:id="r%d" %s>%s</region>' % (i, " ".join(attrs), inner))
     tt_attrs = ' xml:lang="%s"' % rng.choice(["en", "en-US", ""]) if rng.random() < 0.7 else ""
     if rng.random() < 0.2:
